@@ -92,6 +92,15 @@ static std::string ev_str() {
   return b;
 }
 
+// Allocator requests, element events and comparator calls are *not* observable results of the user's program: they are kept
+// in the dump (lines starting with '~') for diagnosis but are not part of the compared transcript.
+static void note_internal() {
+  if (!G.keepTranscript) return;
+  char b[64];
+  snprintf(b, sizeof b, " cmp=%u", G.opCmpCalls);
+  G.transcript += "~ " + G.allocLog + " " + ev_str() + b + "\n";
+}
+
 // ------------------------------------------------------------------------------------------------ vector script
 template <class V, bool Extras>
 struct ExtraOps {
@@ -361,9 +370,10 @@ struct VecScript {
         if (*exc && !fixed) model_fail("unexpected exception");
         check(a, ma, "contents a");
         check(b, mb, "contents b");
-        snprintf(g_line, sizeof g_line, "#%u %c %s%s | a:%zu/%zu [%s] b:%zu/%zu [%s] | %s %s", step, useB ? 'b' : 'a', desc.c_str(), exc, (size_t)a.size(), (size_t)a.capacity(),
-                 contents_of(a).c_str(), (size_t)b.size(), (size_t)b.capacity(), contents_of(b).c_str(), G.allocLog.c_str(), ev_str().c_str());
+        snprintf(g_line, sizeof g_line, "#%u %c %s%s | a:%zu/%zu [%s] b:%zu/%zu [%s]", step, useB ? 'b' : 'a', desc.c_str(), exc, (size_t)a.size(), (size_t)a.capacity(),
+                 contents_of(a).c_str(), (size_t)b.size(), (size_t)b.capacity(), contents_of(b).c_str());
         G.tr(g_line);
+        note_internal();
       }
     }
     G.begin_op(9999, 0, 9999, "teardown");
@@ -503,9 +513,10 @@ struct SetScript {
         check(a, ma, "set contents a");
         check(b, mb, "set contents b");
         if (G.opPoisonCmpCalls) model_fail("default-constructed comparator used");
-        snprintf(g_line, sizeof g_line, "#%u %c %s | a:%zu [%s] b:%zu [%s] | cmp=%u %s %s", step, useB ? 'b' : 'a', desc.c_str(), (size_t)a.size(), sorted_contents(a).c_str(),
-                 (size_t)b.size(), sorted_contents(b).c_str(), G.opCmpCalls, G.allocLog.c_str(), ev_str().c_str());
+        snprintf(g_line, sizeof g_line, "#%u %c %s | a:%zu [%s] b:%zu [%s]", step, useB ? 'b' : 'a', desc.c_str(), (size_t)a.size(), sorted_contents(a).c_str(),
+                 (size_t)b.size(), sorted_contents(b).c_str());
         G.tr(g_line);
+        note_internal();
       }
     }
     G.begin_op(9999, 0, 9999, "teardown");
